@@ -548,6 +548,9 @@ func scnSlots(o *Out, r *Rng, thorough bool) {
 		"3 S C1 C2 C3 D2 D1 D3 C4 C5 C6 C7 R4 R5 R6 R7",
 		"2 S T1 E R1 C2 R2 C3 R3",
 		"1 S C1 B1 C2 R2",
+		"1 S C1 C2 D1 C3 R3",
+		"2 S C1 C2 C3 C4 D1 C5 R5 D2 C6 R6",
+		"1 S C1 C2 C3 D1 C4 R4 D4 C5 R5",
 		"4 S C1 C2 C3 C4 X1 D3 M D4 D2 C5 C6 C7 C8 C9 R5 R9",
 	}
 	for _, f := range fixed {
